@@ -248,6 +248,75 @@ def run(ck, facts, tier):
         else:
             ck.violation(R, "push_lifetime_outlives_goals:table", pl.where(), "outlives goals pushed as %s, expected %s" % (sorted(map(str, table)), sorted(map(str, want))))
 
+    # ------------------------------------------------------------------ LIFETIME-LEAVES
+    R = "C29.LIFETIME-LEAVES"
+    ck.rule(R, "K1: relate_lifetime_lifetime, for every pair of rigid lifetimes (Static / Placeholder / Erased) other than the identical "
+               "leaves (Static,Static) and (Erased,Erased), pushes push_lifetime_outlives_goals(variance, a, b) with the *ambient* variance "
+               "whenever a != b - the only condition allowed around the push is the a != b test; in particular it must not depend on the "
+               "variance (push_lifetime_outlives_goals itself chooses the directions, and Invariant needs both)")
+    rl = need_body(ck, facts, R, UNI + "::relate_lifetime_lifetime")
+    if rl:
+        ms = pair_match(rl.thir, "chalk_ir::LifetimeData")
+        if len(ms) != 1:
+            ck.violation(R, "relate_lifetime_lifetime:table", rl.where(), "expected one match on the pair of lifetime kinds, found %d" % len(ms))
+        else:
+            m = ms[0]
+            rigid = ("Static", "Placeholder", "Erased")
+            n = 0
+            for ka in rigid:
+                for kb in rigid:
+                    arms = select_arms(m, T(V(ka), V(kb)))
+                    arm = m["arms"][arms[0][0]]
+                    inst = "relate_lifetime_lifetime:(%s,%s)" % (ka, kb)
+                    n += 1
+                    pushes = []
+
+                    def visit(nd, conds):
+                        if isinstance(nd, list):
+                            for x in nd:
+                                visit(x, conds)
+                            return
+                        if not isinstance(nd, dict):
+                            return
+                        if nd.get("k") == "call" and callee_matches(nd, "push_lifetime_outlives_goals"):
+                            pushes.append((nd, conds))
+                        if nd.get("k") == "if":
+                            visit(nd["cond"], conds)
+                            visit(nd["then"], conds + [nd["cond"]])
+                            visit(nd.get("else"), conds + [nd["cond"]])
+                            return
+                        if nd.get("k") == "match" and nd is not m:
+                            visit(nd.get("scrut"), conds)
+                            for a_ in nd.get("arms", []):
+                                visit(a_.get("body"), conds + [nd.get("scrut")])
+                            return
+                        for key, v in nd.items():
+                            if isinstance(v, (dict, list)) and key != "pat":
+                                visit(v, conds)
+                    visit(arm["body"], [])
+                    if ka == kb and ka in ("Static", "Erased"):
+                        if not pushes:
+                            ck.ok(R, inst, "identical leaves: nothing to require")
+                        else:
+                            ck.ok(R, inst, "identical leaves (pushes under a != b)")
+                        continue
+                    if not pushes:
+                        ck.violation(R, inst, rl.where(arm["ln"]), "two different rigid lifetimes are related without any outlives requirement")
+                        continue
+                    bad = None
+                    for c, conds in pushes:
+                        a0 = c["args"][1] if len(c["args"]) > 1 else None
+                        if a0 is None or var_name(peel(a0)) != "variance":
+                            bad = "the variance handed to push_lifetime_outlives_goals is not the ambient `variance`"
+                        for cd in conds:
+                            if "variance" in expr_vars(cd) or not (expr_vars(cd) <= {"a", "b"}):
+                                bad = "the push is conditional on `%s`; only the a != b test may guard it" % sorted(expr_vars(cd))
+                    if bad:
+                        ck.violation(R, inst, rl.where(arm["ln"]), bad)
+                    else:
+                        ck.ok(R, inst, "a != b => push_lifetime_outlives_goals(variance, a, b)")
+            ck.floor(R, "rigid-lifetime-pairs", n, 9)
+
     # ------------------------------------------------------------------ SIBLING
     R = "C29.SIBLING"
     ck.rule(R, "K5: generalize_ty uses the same component variances as relate_ty_ty for Ref, Raw, Adt, FnDef and Function "
